@@ -1,9 +1,11 @@
 use std::fmt;
 use std::slice;
 use std::str;
+#[cfg(not(feature = "verif_hooks"))]
 use std::sync::atomic::AtomicUsize;
 use std::sync::atomic::Ordering;
 use std::sync::Arc;
+#[cfg(not(feature = "verif_hooks"))]
 use std::sync::Mutex;
 
 use if_chain::if_chain;
@@ -12,6 +14,8 @@ use crate::detector::{locate_sourcemap_reference_slice, SourceMapRef};
 use crate::errors::Result;
 use crate::js_identifiers::{get_javascript_token, is_valid_javascript_identifier};
 use crate::types::Token;
+#[cfg(feature = "verif_hooks")]
+use crate::verif_hooks::{AtomicUsize, Mutex};
 
 /// An iterator that iterates over tokens in reverse.
 pub struct RevTokenIter<'view, 'map> {
